@@ -38,9 +38,10 @@ def children(v):
                 out.append((("ilen",), VInt(None, v.items)))
         if isinstance(v.src, VIter) or (isinstance(v.src, VAdt) and v.kind in ("take", "enumerate", "copied", "map", "filter", "filter_map", "flatten")):
             out.append((("isrc",), v.src))
-        elif v.kind == "zip2":
-            out.append((("isrc", 0), v.src[0]))
-            out.append((("isrc", 1), v.src[1]))
+        elif v.kind in ("zip2", "chain2"):
+            for i_, x_ in enumerate(v.src):
+                if x_ is not None:
+                    out.append((("isrc", i_), x_))
         elif v.kind in ("slice", "chunks") and isinstance(v.src, VSlice):
             out.append((("isl",), v.src))
     return out
